@@ -196,6 +196,9 @@ func drawOpts(r *rng, gp *genParser, memoPct, recoverFalsePct int) parsersim.Opt
 	if r.chance(1, 3) {
 		o.SpareCap = true
 	}
+	if r.chance(1, 5) {
+		o.NoGlobalOpt = true
+	}
 	return o
 }
 
@@ -298,6 +301,13 @@ func confirmAndMinimise(pw *parserWorld, req parsersim.Request, v parsersim.Viol
 		func(r *parsersim.Request) { r.Call.Opts.AllowInvalidUTF8 = false },
 		func(r *parsersim.Request) { r.Call.Opts.Entrypoint = "" },
 		func(r *parsersim.Request) { r.Call.Opts.Memoize = false },
+		func(r *parsersim.Request) {
+			if len(r.Budgets) == 0 {
+				r.Call.Opts.MaxExpr = 0
+			}
+		},
+		func(r *parsersim.Request) { r.Call.Opts.SpareCap = false },
+		func(r *parsersim.Request) { r.Call.Opts.NoGlobalOpt = false },
 		func(r *parsersim.Request) { r.Call.Opts.Recover = nil },
 		func(r *parsersim.Request) { r.Pool = simsync.PoolConfig{} },
 		func(r *parsersim.Request) { r.Call.Plan.MisbehavePct = 0 },
